@@ -113,8 +113,36 @@ def run_bursts(ctx, bursts, race=False):
                           {"domain": "stats", "goroutines": gs, "got": a, "expected": want})
 
 
+def pipeline_gauges(ctx, n):
+    """the routine gauges of the real stage workers: = workers while the pipeline runs (also while paused), 0 after a stop -
+    whatever the stop moment (c17_gauge_eq_live_workers on the running process)"""
+    from . import e2e
+    r = ctx.rng
+    scns = []
+    for k in range(n):
+        w = r.choice([1, 2, 4])
+        site = {"/g/": {"ctype": "text/html", "body": {"kind": "html", "assets": ["/g/a.png"], "outlinks": []}},
+                "/g/a.png": {"ctype": "image/png", "body": {"kind": "png", "size": 100, "seed": 1}, "delayMs": 100}}
+        stop = [{"when": "drain", "timeoutMs": 20000}, {"when": "paused", "n": 1, "extraMs": 100, "timeoutMs": 5000},
+                {"when": "paused", "n": 0, "extraMs": 200, "timeoutMs": 3000}, {"when": "requests", "n": 1, "timeoutMs": 5000}][k % 4]
+        scns.append({"seeds": ["/g/"], "site": site, "cfg": {"workers": w, "maxConcurrentAssets": 1, "maxRetry": 0, "httpTimeout": 3}, "stop": stop})
+    for scn, (rep, err) in zip(scns, e2e.run_many(scns, timeout=90, workers=6)):
+        rp = {"domain": "e2e", "scenario": scn}
+        ctx.case("gauges" + json.dumps([scn["cfg"]["workers"], scn["stop"]]), True)
+        ctx.count("pipeline-gauge-runs")
+        b, a = rep.get("gaugesBeforeStop"), rep.get("gaugesAfterStop")
+        if b is None or a is None:
+            ctx.violation("the crawl did not report its gauges: %s" % {k: v for k, v in rep.items() if k in ("died", "panic", "stopPanic", "stopHung")}, rp); continue
+        w = scn["cfg"]["workers"]
+        if any(b[s] != w for s in ("pre", "arch", "post")):
+            ctx.violation("routine gauges while %d workers per stage were running (%s): %s" % (w, scn["stop"]["when"], b), rp)
+        elif any(a[s] != 0 for s in ("pre", "arch", "post")):
+            ctx.violation("routine gauges after the stop (%s, %d workers per stage): %s" % (scn["stop"]["when"], w, a), rp)
+
+
 def run(ctx):
     r = ctx.rng
+    pipeline_gauges(ctx, 24 if ctx.thorough() else 4)
     n = 120 if ctx.thorough() else 12
     bursts = [gen_burst(r, r.choice([4, 8, 16]), r.choice([200, 1000, 3000])) for _ in range(n)]
     bursts.insert(0, [["u", "s", "h:200", "m:7", "g+:pre"], ["u", "h:200", "g+:pre", "g-:pre", "ur", "ug"]])
@@ -137,3 +165,9 @@ def replay(ctx, doc):
     rp = doc.get("replay", doc)
     if "goroutines" in rp:
         run_bursts(ctx, [rp["goroutines"]])
+    elif "scenario" in rp:
+        from . import e2e
+        rep, err = e2e.run_one(rp["scenario"], timeout=90)
+        a = rep.get("gaugesAfterStop") or {}
+        if any(v != 0 for v in a.values()):
+            ctx.violation("replay: gauges after the stop: %s" % a, rp)
